@@ -197,9 +197,14 @@ func (b *batchedEvents) unmarshalBatchedEventFromFastJSON(event *batchedEvent, v
 	obj.Visit(func(key []byte, v *fastjson.Value) {
 		switch string(key) {
 		case "time":
-			if v.Type() == fastjson.TypeString {
+			switch v.Type() {
+			case fastjson.TypeString:
 				s := v.GetStringBytes()
 				event.Timestamp = string(s)
+			case fastjson.TypeNumber:
+				// a Unix epoch written as a JSON number: keep its digits as
+				// they are, getEventTime reads them like the string form
+				event.Timestamp = v.String()
 			}
 		case "samplerate":
 			if v.Type() == fastjson.TypeNumber {
